@@ -42,3 +42,110 @@ def replay(pid, path):
     p = json.load(open(path))
     print(json.dumps({k: v for k, v in p.items() if k in ("property", "backend", "case", "result", "signature")}, indent=1))
     return 0
+
+
+def check_C08(tier):
+    """RISC-V: lock-step on print-free programs + agreement of the three backends on their results."""
+    plan = T(tier, [("noprint", 160), ("noprint_spill", 80)], [("noprint", 2500), ("noprint_spill", 1500)])
+    r = rng_for("C08")
+    k = T(tier, 1, 10)
+    directed = [d for d in GL.fam_literals(r, 10 * k) + GL.fam_ops(r, 150 * k) + GL.fam_ifc(r, 120 * k)]
+
+    def agree(art, index, args, work, stats):
+        res = {be: {x["case"]: x for x in json.load(open(os.path.join(work, "results-%s.json" % be)))} for be in ("rv64", "x86", "a64")}
+        viols, compared = [], 0
+        for case, x in res["rv64"].items():
+            if x["status"] != "done":
+                continue
+            for other in ("x86", "a64"):
+                y = res[other].get(case)
+                if y is None or y["status"] != "done":
+                    continue
+                compared += 1
+                if y["res"] != x["res"]:
+                    sig = "C08:agree:rv64-vs-%s" % other
+                    rp = save_replay("C08", "agree-" + case, {"case": case, "rv64": x, other: y})
+                    viols.append({"signature": sig, "what": "%s: RISC-V result differs from %s" % (case, other), "replay": rp})
+        stats["agree"] = {"compared": compared}
+        return viols
+    return lockstep.lockstep_check(
+        "C08", tier, ["rv64", "x86", "a64"], plan, maxsteps=T(tier, 5000, 20000), timeout=T(tier, 900, 7000),
+        directed=directed, with_examples=False, post=agree,
+        extra_rule="print-free programs only; failures of the x86/a64 runs are reported by C06/C07, here they only take "
+                   "part in the three-way comparison of final results (BackendsAgree)")
+
+
+def check_C13(tier):
+    r = rng_for("C13")
+    k = T(tier, 2, 12)
+    directed = GL.fam_print(r, 44 * k, nparams_max=7) + GL.fam_arity(7)
+    plan = T(tier, [("printy", 120)], [("printy", 2500)])
+    return lockstep.lockstep_check(
+        "C13", tier, ["x86", "a64"], plan, maxsteps=T(tier, 5000, 20000), timeout=T(tier, 900, 7000), directed=directed,
+        level="model_checking",
+        extra_rule="C13 predicates of the external-call model: AlignedAtCall, AlignedAtSpAccess (AArch64), "
+                   "CalleeSavedRestored, SpRestored, ReturnsToCaller, NoUndefUse after the call destroyed every caller-saved "
+                   "register, flags, link register and dead stack; directed: print with 0..21 live variables of mixed kinds "
+                   "x 0..7 entry arguments (beyond-capacity arities are skipped)")
+
+
+def loops_extra(tier):
+    import glob
+    ns = T(tier, [0, 1, 4, 16], [0, 1, 4, 16, 64, 256])
+    return [({"name": "loop_" + os.path.basename(f)[:-3], "kind": "fun", "path": f}, [[n] for n in ns])
+            for f in sorted(glob.glob(os.path.join(VERIF, "corpus", "loops", "*.sc")))]
+
+
+def check_C10(tier):
+    def same_frontier(art, index, args, work, stats):
+        viols = []
+        for be in ("x86", "a64"):
+            byprog = {}
+            for x in json.load(open(os.path.join(work, "results-%s.json" % be))):
+                name, _, a = x["case"].partition("@")
+                if name.startswith("loop_") and x["status"] == "done":
+                    byprog.setdefault(name, {})[int(a)] = x["F"]
+            for name, fs in byprog.items():
+                big = {n: f for n, f in fs.items() if n >= 4}
+                if len(set(big.values())) > 1:
+                    rp = save_replay("C10", "growth-%s-%s" % (be, name), {"backend": be, "program": name, "frontier_by_n": fs})
+                    viols.append({"signature": "C10:%s:growth:%s" % (be, name), "replay": rp,
+                                  "what": "%s on %s: allocation frontier grows with the number of iterations %s" % (name, be, fs)})
+            stats.setdefault(be, {})["loop_frontiers"] = byprog
+        return viols
+    plan = T(tier, [("objects", 80), ("base", 60)], [("objects", 1500), ("base", 1500)])
+    return lockstep.lockstep_check(
+        "C10", tier, ["x86", "a64", "rv64"], plan, maxsteps=T(tier, 60000, 1500000), nblocks=160, timeout=T(tier, 900, 7000),
+        extra=loops_extra(tier), post=same_frontier, level="model_checking",
+        extra_rule="Footprint: frontier <= peak reachable blocks + 2 at every statement boundary; build-and-drop loops "
+                   "(corpus/loops) run with n = 0,1,4,16(,64,256) iterations and must end with the same frontier for n >= 4")
+
+
+def check_C09(tier):
+    plan = T(tier, [("objects", 90), ("base", 70), ("spill", 30)], [("objects", 2000), ("base", 1500), ("spill", 600)])
+    return lockstep.lockstep_check(
+        "C09", tier, ["x86", "a64", "rv64"], plan, maxsteps=T(tier, 20000, 200000), nblocks=160, timeout=T(tier, 900, 7000),
+        extra=loops_extra("quick"), level="model_checking",
+        extra_rule="HeapInv (spec/HeapInv.tla) evaluated on the concrete heap words and registers at every statement marker; "
+                   "MemInBounds at every instruction")
+
+
+def check_C11(tier):
+    r = rng_for("C11")
+    if tier == "quick":
+        directed = GL.fam_subst_exhaustive(3, 3, [0, 4, 5, 11, 12]) + GL.fam_subst_random(r, 300)
+    else:
+        def pats(n):
+            import itertools
+            if n <= 3:
+                return list(itertools.product("eo", repeat=n))
+            return [tuple("e" * n), tuple("o" * n), tuple(("eo" * n)[:n]), tuple(("oe" * n)[:n])]
+        directed = GL.fam_subst_exhaustive(4, 4, [0, 3, 4, 5, 10, 11, 12], kind_patterns=pats) + GL.fam_subst_random(r, 4000)
+    return lockstep.lockstep_check(
+        "C11", tier, ["x86", "a64", "rv64"], [], maxsteps=4000, timeout=T(tier, 900, 7000), directed=directed,
+        with_examples=False, level="model_checking",
+        extra_rule="every map from m new variables to n old ones (quick m,n<=3; thorough m,n<=4), every kind assignment "
+                   "(patterns above 3), window offsets across each backend's register/spill boundary; the marker after the "
+                   "substitution compares every new variable with the simultaneous assignment of the AxCut machine and "
+                   "HeapInv checks that copies raised and drops released the reference counts exactly")
+lockstep.TAGS["C11"] = {"control", "env", "result", "value", "undef", "heap", "mem", "axcut"}
